@@ -278,9 +278,11 @@ DetSum(m, j) ==
 ExistsInst(net, n, t, inst) ==
     LET cons == NetConstraints(net, n)
         ind  == Relation(t, n).ind
+        (* the sparse selector rows first: the expansion along the first  *)
+        (* row then stays cheap (the sign of the determinant is immaterial) *)
         m == [r \in 1..(2 * n) |->
-                IF r <= n THEN ConstraintRow(cons[r], n, inst)
-                ELSE TermRow(ind[r - n], n)]
+                IF r <= n THEN TermRow(ind[r], n)
+                ELSE ConstraintRow(cons[r - n], n, inst)]
     IN Det(m) # 0
 
 TypeExists(net, n, t) == ExistsInst(net, n, t, 1) /\ ExistsInst(net, n, t, 2)
@@ -316,4 +318,109 @@ NetExistenceAsExpected ==
     /\ \A n \in 2..3 : {t \in NPortTypes : TypeExists("floating", n, t)} = {"S", "Y"}
     /\ \A n \in 2..3 : {t \in NPortTypes : TypeExists("star", n, t)} = {"S", "Z"}
     /\ ~ZinExists("open2", 2) /\ ZinExists("short2", 2) /\ ZinExists("series", 2)
+
+-----------------------------------------------------------------------------
+(* STRUCTURED MATRICES.  Zero patterns of the input matrix itself (exact    *)
+(* zeros), as they occur for uncoupled ports, unilateral devices, blocks of *)
+(* independent networks, reciprocal networks.                               *)
+
+Shapes == {"diag", "upper", "lower", "blockdiag", "pair", "sym"}
+
+(* may entry (i, j) of an n x n matrix of that shape be non-zero? *)
+ShapeEntry(shape, n, i, j) ==
+    CASE shape = "diag"      -> i = j
+      [] shape = "upper"     -> i <= j
+      [] shape = "lower"     -> i >= j
+      [] shape = "blockdiag" -> (i <= (n + 1) \div 2) = (j <= (n + 1) \div 2)
+      [] shape = "pair"      -> i = j \/ {i, j} = {1, n}
+      [] shape = "sym"       -> TRUE
+      [] shape = "dense"     -> TRUE
+
+(* the shape says something the dense case does not *)
+ShapeProper(shape, n) ==
+    CASE shape = "blockdiag" -> n >= 3
+      [] shape = "pair"      -> n >= 3
+      [] OTHER               -> n >= 2
+
+Primes == <<2, 3, 5, 7, 11, 13, 17, 19, 23, 29, 31, 37, 41, 43, 47, 53,
+            59, 61, 67, 71, 73, 79, 83, 89, 97, 101, 103, 107, 109, 113,
+            127, 131>>
+(* integer instance of a matrix of the shape *)
+ShapeVal(shape, n, i, j, inst) ==
+    IF ~ShapeEntry(shape, n, i, j) THEN 0
+    ELSE LET a == IF shape = "sym" /\ i > j THEN j ELSE i
+             b == IF shape = "sym" /\ i > j THEN i ELSE j
+         IN Primes[(a - 1) * n + b + (inst - 1) * 16]
+
+(* row "dep_k - sum_j M_kj ind_j = 0" of a matrix of type x *)
+RECURSIVE MRowSum(_, _, _, _, _, _, _)
+MRowSum(x, shape, n, k, inst, col, j) ==
+    IF j > n THEN 0
+    ELSE ShapeVal(shape, n, k, j, inst) * TermRow(Relation(x, n).ind[j], n)[col]
+         + MRowSum(x, shape, n, k, inst, col, j + 1)
+MatrixRow(x, shape, n, k, inst) ==
+    LET d == TermRow(Relation(x, n).dep[k], n)
+    IN [col \in 1..(2 * n) |-> d[col] - MRowSum(x, shape, n, k, inst, col, 1)]
+
+ShapedExistsInst(x, shape, n, t, inst) ==
+    LET ind == Relation(t, n).ind
+        m == [r \in 1..(2 * n) |->
+                IF r <= n THEN TermRow(ind[r], n)
+                ELSE MatrixRow(x, shape, n, r - n, inst)]
+    IN Det(m) # 0
+ShapedExists(x, shape, n, t) ==
+    ShapedExistsInst(x, shape, n, t, 1) /\ ShapedExistsInst(x, shape, n, t, 2)
+
+ShapedZinExistsInst(x, shape, n, inst) ==
+    \A k \in 1..n :
+       LET m == [r \in 1..(2 * n) |->
+                   IF r <= n
+                   THEN (IF r = k THEN TermRow(Term("i", k, 1), n)
+                         ELSE TermRow(Term("a", r, 1), n))
+                   ELSE MatrixRow(x, shape, n, r - n, inst)]
+       IN Det(m) # 0
+ShapedZinExists(x, shape, n) ==
+    ShapedZinExistsInst(x, shape, n, 1) /\ ShapedZinExistsInst(x, shape, n, 2)
+
+(* sanity: a diagonal S (no transmission) has no T, U, A, B; a lower        *)
+(* triangular S (s12 = 0) has T but no U                                    *)
+ShapeExistenceAsExpected ==
+    /\ {t \in MatrixTypes : ShapedExists("S", "diag", 2, t)} = {"S", "Z", "Y", "H", "G"}
+    /\ ShapedExists("S", "lower", 2, "T") /\ ~ShapedExists("S", "lower", 2, "U")
+    /\ ShapedExists("S", "upper", 2, "U") /\ ~ShapedExists("S", "upper", 2, "T")
+    /\ \A sh \in Shapes, n \in 2..3, x \in NPortTypes, t \in NPortTypes :
+          ShapeProper(sh, n) => ShapedExists(x, sh, n, t)
+
+-----------------------------------------------------------------------------
+(* EQUALITY PATTERNS OF THE REFERENCE IMPEDANCES: which ports share the     *)
+(* same z0.  A pattern is a restricted-growth sequence of group numbers.    *)
+
+IsRGS(s) == /\ s[1] = 1
+            /\ \A i \in 2..Len(s) : \E j \in 1..(i - 1) : s[i] <= s[j] + 1
+AllPatterns(n) == {s \in [1..n -> 1..n] : IsRGS(s)}   \* every set partition
+
+Z0Patterns(n) ==
+    IF n <= 4 THEN AllPatterns(n)
+    ELSE IF n = 5
+    THEN {<<1, 1, 1, 1, 1>>, <<1, 2, 3, 4, 5>>,
+          <<1, 2, 3, 4, 1>>,              \* first = last only
+          <<1, 2, 1, 3, 4>>,              \* first = middle only
+          <<1, 2, 2, 2, 2>>, <<1, 1, 2, 1, 1>>, <<1, 1, 1, 1, 2>>,  \* all but one
+          <<1, 1, 2, 2, 3>>, <<1, 2, 1, 2, 3>>}                     \* two pairs
+    ELSE {<<1, 1, 1, 1, 1, 1>>, <<1, 2, 3, 4, 5, 6>>,
+          <<1, 2, 3, 4, 5, 1>>, <<1, 2, 3, 1, 4, 5>>,
+          <<1, 2, 2, 2, 2, 2>>, <<1, 1, 1, 2, 1, 1>>, <<1, 1, 1, 1, 1, 2>>,
+          <<1, 1, 2, 2, 3, 4>>, <<1, 2, 3, 1, 2, 4>>}
+
+GroupLetters == <<"a", "b", "c", "d", "e", "f">>
+RECURSIVE PatStringFrom(_, _)
+PatStringFrom(s, i) ==
+    IF i > Len(s) THEN "" ELSE GroupLetters[s[i]] \o PatStringFrom(s, i + 1)
+PatString(s) == PatStringFrom(s, 1)
+
+(* Bell numbers: TLC really enumerates every partition *)
+PatternCounts ==
+    /\ Cardinality(AllPatterns(1)) = 1 /\ Cardinality(AllPatterns(2)) = 2
+    /\ Cardinality(AllPatterns(3)) = 5 /\ Cardinality(AllPatterns(4)) = 15
+    /\ <<1, 2, 1>> \in AllPatterns(3)
 =============================================================================
